@@ -110,7 +110,10 @@ macro_rules! shape {
     (@pnull leaf $ty:ty, ($e:expr), $j:expr, $m:ident, $n:ident) => { if *$j == 0 { $e = std::ptr::$n(); } *$j -= 1; };
     (@pnull nested $ty:ty, ($e:expr), $j:expr, $m:ident, $n:ident) => { <$ty as Shape>::$m(&mut $e, $j) };
     (@desync leaf $ty:ty, ($e:expr), $j:expr, $what:expr, $id:expr) => {
-        if *$j == 0 { match $what { "pop" => { $e.pop(); } "push" => { $e.push(<$ty as Leaf>::make($id)); } "clear" => { $e.clear(); } _ => panic!("bad desync") } }
+        if *$j == 0 { match $what { "pop" => { $e.pop(); } "push" => { $e.push(<$ty as Leaf>::make($id)); } "clear" => { $e.clear(); }
+            // grow this one field array until it is exactly full (len == capacity), at least one element
+            "fill" => { $e.push(<$ty as Leaf>::make($id)); while $e.len() < $e.capacity() && $e.len() < 64 { $e.push(<$ty as Leaf>::make($id)); } }
+            _ => panic!("bad desync") } }
         *$j -= 1;
     };
     (@desync nested $ty:ty, ($e:expr), $j:expr, $what:expr, $id:expr) => { <$ty as Shape>::desync(&mut $e, $j, $what, $id) };
